@@ -233,6 +233,56 @@ func genC17() {
 		die("syncer/syncer.go: updateCheckpoint's id ordering not found")
 	}
 	facts["c17_start_order"] = ord
+
+	// ---- syncer/bisync.go: the recovery of a start runs synchronously inside bisyncStartPoint
+	// (Model/FrontierTraffic.lean: no unit commits while a recovery request is outstanding):
+	// no goroutine is started in these functions, and StartPoint calls bisyncStartPoint directly
+	fsetBs, fbs := parseFile("syncer/bisync.go")
+	sync := map[string][]string{}
+	for _, name := range []string{"bisyncStartPoint", "purgeBisyncRecoveryState", "cleanupRecoveredBisyncCommitRecords"} {
+		found := false
+		for _, d := range fbs.Decls {
+			fd, ok := d.(*ast.FuncDecl)
+			if !ok || fd.Name.Name != name || fd.Body == nil {
+				continue
+			}
+			found = true
+			sync[name] = []string{}
+			ast.Inspect(fd.Body, func(n ast.Node) bool {
+				switch st := n.(type) {
+				case *ast.GoStmt:
+					sync[name] = append(sync[name], c17Print(fsetBs, st))
+				case *ast.CallExpr:
+					t := c17Print(fsetBs, st.Fun)
+					if strings.Contains(t, "SafeGo") || strings.Contains(t, "WgGo") {
+						sync[name] = append(sync[name], t)
+					}
+				}
+				return true
+			})
+		}
+		if !found {
+			die("syncer/bisync.go: %s not found", name)
+		}
+	}
+	facts["c14_start_sync"] = sync
+	fsetO, fo := parseFile("syncer/output.go")
+	var spCalls []string
+	for _, d := range fo.Decls {
+		fd, ok := d.(*ast.FuncDecl)
+		if !ok || fd.Name.Name != "StartPoint" || fd.Body == nil {
+			continue
+		}
+		ast.Inspect(fd.Body, func(n ast.Node) bool {
+			if as, ok := n.(*ast.AssignStmt); ok {
+				if t := c17Print(fsetO, as); strings.Contains(t, "bisyncStartPoint(") {
+					spCalls = append(spCalls, t)
+				}
+			}
+			return true
+		})
+	}
+	facts["c14_startpoint_calls"] = spCalls
 }
 
 // c17StripLogs removes `sc.logger.X(...)` statements from a printed block
